@@ -19,11 +19,14 @@ def run(ctx, replay):
         tr = walcommon.run_wal(ctx, ["--histories", 60, "--ops", 60, "--images", 25, "--concurrent", 120], "a")
         walcommon.run_wal(ctx, ["--histories", 0, "--big", 8], "big")
         walcommon.run_wal(ctx, ["--histories", 0, "--boundary", 12], "boundary")
+        walcommon.run_wal(ctx, ["--histories", 0, "--rollfail", 8], "rollfail")
     else:
         tr = walcommon.run_wal(ctx, ["--histories", 12, "--ops", 50, "--images", 5, "--concurrent", 25], "a")
         walcommon.run_wal(ctx, ["--histories", 0, "--big", 1], "big")
         # reopen exactly on the last slot of an index page (262144 entries), reached through a forward index reset
         walcommon.run_wal(ctx, ["--histories", 0, "--boundary", 4], "boundary")
+        # the roll-over to the next data page fails (page acquisition fault), later appends, roll-over, reopen
+        walcommon.run_wal(ctx, ["--histories", 0, "--rollfail", 2], "rollfail")
     vcore.corrupt_selftest(ctx, "WALQueueTrace", "WALQueueTrace.cfg", tr, walcommon.mutate_store, "data store offset +1")
     vcore.corrupt_selftest(ctx, "WALQueueTrace", "WALQueueTrace.cfg", tr, walcommon.mutate_proj, "a message reads back other bytes")
     vcore.corrupt_selftest(ctx, "WALQueueTrace", "WALQueueTrace.cfg", tr, walcommon.drop_store, "meta appended store dropped")
